@@ -159,6 +159,8 @@ def generate():
             text += table('numbers_en', t['numbers'], 'en-us time_parser.config.numbers')
             main += text
         else:
+            if t['numbers'] is not None:
+                text += table('numbers_' + tag, t['numbers'], '%s time_parser.config.numbers' % cul)
             part = 'DtMapsX1' if i <= 4 else 'DtMapsX2'
             x[part] += text
     main += '/-- class of each culture\'s date parser (BaseDateParser cultures share match_to_date) -/\n'
